@@ -58,6 +58,7 @@ def handle (j : Json) : Except String Json := do
       ("word", decide (Word n)),
       ("alnum", js (alnum n)),
       ("ok", Json.arr (allCfgs.map fun c => Json.bool (decide (OutOK c (processName c n)))).toArray),
+      ("ptrig", Json.bool (trigPascalBad n)),
       ("strig", Json.arr ([false, true].map fun sn =>
           Json.arr (scopes.map fun s => Json.bool (trigScopeSingle sn s n)).toArray).toArray),
       ("trig", Json.arr (allCfgs.map fun c => Json.arr #[
